@@ -17,7 +17,7 @@ import sys
 
 VERIF = os.path.dirname(os.path.dirname(os.path.abspath(__file__)))
 SEEDED = os.path.join(VERIF, "seeded")
-WORK = "/tmp/seedwork"
+WORK = f"/tmp/seedwork-{os.getpid()}"
 PY = "/venv/bin/python"
 
 
